@@ -40,7 +40,7 @@ int main(int argc, char** argv) {
     // the input files named by the option values exist - next to the parent config, not in the working directory
     mkdir((DIR + "/results").c_str(), 0755); mkdir((DIR + "/dir").c_str(), 0755); mkdir((DIR + "/p").c_str(), 0755);
     for (const char* fn : {"start.h5", "other.txt", "z.dat", "dir/other.dat", "t.txt", "p/q=1 b.txt"}) { std::ofstream f(DIR + "/" + fn); f << "0 1 0\n"; }
-    const bool T = R.thorough();
+    const bool T = true /* the wide lattices run in both tiers */; const bool D = R.thorough(); (void)D;
     { std::string k = "defaults"; if (R.mine(k)) run_case(k, {}, {}); }
     // singles
     for (size_t i = 0; i < NOPTS; i++) for (int v = 0; v < 2; v++) for (int src = 0; src < 3; src++) {
@@ -80,7 +80,7 @@ int main(int argc, char** argv) {
         run_case(kase, cli, cfg);
     }
     R.bound_done(std::string("all pairs of options x ") + (T ? "4" : "2") + " source combinations");
-    if (T) {
+    if (D) {   // triples: thorough tier only
         for (size_t i = 0; i < NOPTS; i++) for (size_t j = i + 1; j < NOPTS; j++) for (size_t k = j + 1; k < NOPTS; k++) {
             std::string base = std::string("triple ") + OPTS[i].name + "+" + OPTS[j].name + "+" + OPTS[k].name;
             if (R.out_of_time()) { R.not_completed = base; goto done; }
